@@ -9,9 +9,9 @@ for f in glob.glob("/tmp/mt/results*.jsonl"):
         r = json.loads(l)
         res.setdefault(r["seed"], {})[(r["prop"], r.get("tier", "quick"), r.get("cfg"))] = r
 SKIP = {"C19-4": "fails the existing randomized test most of the time"}
-for d in sorted(glob.glob("/tmp/mut/C*/OUT")) + sorted(glob.glob("/tmp/mut2/C*/OUT")) + sorted(glob.glob("/tmp/mut3/C*/OUT")) + sorted(glob.glob("/tmp/mut4/C*/OUT")):
+for d in sorted(glob.glob("/tmp/mut/C*/OUT")) + sorted(glob.glob("/tmp/mut2/C*/OUT")) + sorted(glob.glob("/tmp/mut3/C*/OUT")) + sorted(glob.glob("/tmp/mut4/C*/OUT")) + sorted(glob.glob("/tmp/mut5/C*/OUT")):
     prop = d.split("/")[3]
-    off = {"/tmp/mut2": 2, "/tmp/mut3": 4, "/tmp/mut4": 6}.get(d[:9], 0)
+    off = {"/tmp/mut2": 2, "/tmp/mut3": 4, "/tmp/mut4": 6, "/tmp/mut5": 8}.get(d[:9], 0)
     for i in (1, 2):
         p = os.path.join(d, f"patch{i}.diff")
         if not os.path.exists(p):
